@@ -155,12 +155,157 @@ impl Sub for Freshness {
   }
 }
 
+// ---------------------------------------------------------------- histories that continue in a forked process
+
+/// `pre` builds, then the process forks, then `post` builds in the parent and in the child - all under one key.
+#[derive(Clone, Debug, Serialize, Deserialize)]
+pub struct ForkHistory {
+  pub proto: Proto,
+  pub layer: Layer,
+  pub pre: u32,
+  pub post: u32,
+}
+
+pub struct AcrossFork;
+
+extern "C" {
+  fn fork() -> i32;
+  fn pipe(fds: *mut i32) -> i32;
+  fn read(fd: i32, buf: *mut u8, n: usize) -> isize;
+  fn write(fd: i32, buf: *const u8, n: usize) -> isize;
+  fn close(fd: i32) -> i32;
+  fn waitpid(pid: i32, status: *mut i32, options: i32) -> i32;
+  fn _exit(code: i32) -> !;
+}
+
+fn build_one(p: Proto, layer: Layer, lk: &LibKeys) -> Option<Vec<u8>> {
+  let claims = [
+    ClaimSpec::Custom("data".into(), json!("same payload every time")),
+    ClaimSpec::Exp("2999-01-01T00:00:00Z".into()),
+    ClaimSpec::Iat("2000-01-01T00:00:00Z".into()),
+    ClaimSpec::Nbf("2000-01-01T00:00:00Z".into()),
+  ];
+  let mut b = new_builder(p, layer);
+  for cs in &claims {
+    let _ = b.set(cs);
+  }
+  let token = b.build(lk).ok()?;
+  let (_, pseg, _) = split_token(&token)?;
+  let payload = unb64(&pseg)?;
+  payload.get(..p.nonce_len()).map(|n| n.to_vec())
+}
+
+/// Body of `pv c10-fork <version 0..4> <layer 0|1> <pre> <post>`: runs in a fresh single-threaded process (so that fork()
+/// is safe), prints one line per build: `B`efore the fork, `P`arent after it, `C`hild after it, each followed by the nonce.
+pub fn fork_child_main(args: &[String]) -> i32 {
+  let num = |i: usize| args.get(i).and_then(|s| s.parse::<u32>().ok()).unwrap_or(0);
+  let p = Proto::LOCAL[(num(0) % 4) as usize];
+  let layer = if num(1) == 0 { Layer::Generic } else { Layer::Prelude };
+  let (pre, post) = (num(2), num(3));
+  let km = keys::material(p, &[42u8; 32]);
+  let lk = km.lib().expect("valid key");
+  let mut out = String::new();
+  for _ in 0..pre {
+    match build_one(p, layer, &lk) {
+      Some(n) => out.push_str(&format!("B {}\n", hex::encode(n))),
+      None => return 3,
+    }
+  }
+  let mut fds = [0i32; 2];
+  if unsafe { pipe(fds.as_mut_ptr()) } != 0 {
+    return 4;
+  }
+  let pid = unsafe { fork() };
+  if pid < 0 {
+    return 4;
+  }
+  if pid == 0 {
+    // child: build, send the nonces through the pipe, leave without running any destructor
+    let mut text = String::new();
+    for _ in 0..post {
+      match build_one(p, layer, &lk) {
+        Some(n) => text.push_str(&format!("C {}\n", hex::encode(n))),
+        None => text.push_str("C build-failed\n"),
+      }
+    }
+    let bytes = text.as_bytes();
+    let mut off = 0;
+    while off < bytes.len() {
+      let k = unsafe { write(fds[1], bytes[off..].as_ptr(), bytes.len() - off) };
+      if k <= 0 {
+        break;
+      }
+      off += k as usize;
+    }
+    unsafe { _exit(0) }
+  }
+  unsafe { close(fds[1]) };
+  for _ in 0..post {
+    match build_one(p, layer, &lk) {
+      Some(n) => out.push_str(&format!("P {}\n", hex::encode(n))),
+      None => return 3,
+    }
+  }
+  let mut buf = vec![0u8; 65536];
+  let mut got = vec![];
+  loop {
+    let k = unsafe { read(fds[0], buf.as_mut_ptr(), buf.len()) };
+    if k <= 0 {
+      break;
+    }
+    got.extend_from_slice(&buf[..k as usize]);
+  }
+  let mut status = 0i32;
+  unsafe { waitpid(pid, &mut status, 0) };
+  out.push_str(&String::from_utf8_lossy(&got));
+  print!("{out}");
+  0
+}
+
+impl Sub for AcrossFork {
+  type Case = ForkHistory;
+  fn name(&self) -> String {
+    "C10/histories-across-fork".into()
+  }
+  fn check(&self, c: &ForkHistory, cl: &mut Classes) -> Verdict {
+    let p = c.proto;
+    let exe = match std::env::current_exe() {
+      Ok(e) => e,
+      Err(_) => return Verdict::Discard,
+    };
+    let vi = Proto::LOCAL.iter().position(|q| *q == p).unwrap_or(3);
+    let out = match std::process::Command::new(exe).args(["c10-fork", &vi.to_string(), if c.layer == Layer::Generic { "0" } else { "1" }, &c.pre.to_string(), &c.post.to_string()]).output() {
+      Ok(o) => o,
+      Err(_) => return Verdict::Discard,
+    };
+    let text = String::from_utf8_lossy(&out.stdout).to_string();
+    let lines: Vec<(&str, &str)> = text.lines().filter_map(|l| l.split_once(' ')).collect();
+    let count = |tag: &str| lines.iter().filter(|(t, _)| *t == tag).count() as u32;
+    if out.status.code() != Some(0) || count("B") != c.pre || count("P") != c.post || count("C") != c.post || lines.iter().any(|(_, n)| hex::decode(n).is_err()) {
+      // the helper process could not do its job (fork refused, build failed ...): nothing is concluded from that
+      cl.tag("fork-helper-failed");
+      return Verdict::Discard;
+    }
+    cl.tag(format!("{}:{}:pre={}:post={}", p.label(), c.layer.label(), c.pre, c.post));
+    cl.nontrivial(c.post > 0);
+    let mut seen: std::collections::HashMap<&str, &str> = std::collections::HashMap::new();
+    for (tag, n) in &lines {
+      if let Some(prev) = seen.insert(*n, *tag) {
+        vio!("C10:nonce-repeated-across-fork:{}:{}", p.label(), c.layer.label(); "nonce {} was used twice under one key: once by {} and once by {} (B = before the fork, P = parent after it, C = child after it; {} builds before, {} after in each process)", n, prev, tag, c.pre, c.post);
+      }
+    }
+    BUILDS.fetch_add((c.pre + 2 * c.post) as u64, std::sync::atomic::Ordering::Relaxed);
+    DISTINCT.fetch_add(seen.len() as u64, std::sync::atomic::Ordering::Relaxed);
+    Verdict::Pass
+  }
+}
+
 static SAMPLES: std::sync::Mutex<Vec<serde_json::Value>> = std::sync::Mutex::new(vec![]);
 static BUILDS: std::sync::atomic::AtomicU64 = std::sync::atomic::AtomicU64::new(0);
 static DISTINCT: std::sync::atomic::AtomicU64 = std::sync::atomic::AtomicU64::new(0);
 
 pub fn subs() -> Vec<Box<dyn DynSub>> {
-  vec![Box::new(Freshness)]
+  vec![Box::new(Freshness), Box::new(AcrossFork)]
 }
 
 pub fn run(ctx: &Ctx) -> EvidenceMeta {
@@ -185,6 +330,13 @@ pub fn run(ctx: &Ctx) -> EvidenceMeta {
       ctx.prop(fr, strat, cases)
     }));
   }
+  // histories that continue in a forked process (each runs in a fresh single-threaded helper process)
+  let af = &AcrossFork;
+  let fork_cases: Vec<ForkHistory> = Proto::LOCAL
+    .iter()
+    .flat_map(|proto| [Layer::Generic, Layer::Prelude].into_iter().flat_map(move |layer| [(0u32, 50u32), (1, 50), (7, 200)].into_iter().map(move |(pre, post)| ForkHistory { proto: *proto, layer, pre, post })))
+    .collect();
+  jobs.push(Box::new(move || ctx.enumerate(af, fork_cases.into_iter(), false)));
   run_jobs(jobs);
   let builds = BUILDS.load(std::sync::atomic::Ordering::Relaxed);
   let distinct = DISTINCT.load(std::sync::atomic::Ordering::Relaxed);
@@ -200,6 +352,7 @@ pub fn run(ctx: &Ctx) -> EvidenceMeta {
            plus identical LARGE claims (70 000 bytes) and generated histories in which builds of the other local versions are interleaved on the same thread (repeating blocks of 1-23 versions). For v3/v4 (raw random nonce) no 8-byte window may occur in two nonces at any offset. \
            Invariant over the history: the nonce fields (first 32, v2 24, decoded payload bytes) are pairwise distinct, the tokens are pairwise distinct, every one of the 256/192 nonce bit positions is 1 in N/2 +- sqrt(30 N) builds \
            (Hoeffding: a uniform source violates this with probability < 2^-70 over all positions and histories) and every nonce byte position takes >= 128 distinct values. \
+           Histories across fork(): pre in {{0,1,7}} builds, then the process forks and parent and child each build 50/200 more under the same key - no nonce may occur twice in the union. \
            An 'evaluation' is one history; builds_total / distinct_nonces_total count the builds. Non-trivial = N >= 1000; distinct by (version, builder, mode)."),
     assumptions: vec!["observes the OS random generator (that is the property); 'unpredictable' is not decidable by observation - a weak but equidistributed generator passes".into()],
   }
